@@ -719,17 +719,20 @@ fn get_where_filters(params: &EntityParams, prepared_query: &mut SingleQuery, t:
                                     ));
                                 }
                                 ParamValue::String(v) => {
+                                    // bound like the Ifnull default of the select list, never written into the statement
+                                    let d = prepared_query.add_param(String::from(v), true);
                                     tab(&mut q, t + 1);
                                     q.push_str(&format!(
-                                        "WHEN '{}' {} {} THEN ",
-                                        v, operation, &value
+                                        "WHEN {} {} {} THEN ",
+                                        d, operation, &value
                                     ));
                                 }
                                 ParamValue::Binary(v) => {
+                                    let d = prepared_query.add_param(String::from(v), true);
                                     tab(&mut q, t + 1);
                                     q.push_str(&format!(
-                                        "WHEN '{}' {} {} THEN ",
-                                        v, operation, &value
+                                        "WHEN {} {} {} THEN ",
+                                        d, operation, &value
                                     ));
                                 }
                                 _ => unreachable!(),
